@@ -76,6 +76,10 @@ func (c *dupOptionChecker) getVariadicArgs(call *ast.CallExpr) ([]ast.Expr, type
 		return nil, nil
 	}
 	argType := sliceType.Elem()
+	if last > len(call.Args) {
+		// f(g()) form: g's results are forwarded, there are no syntactic variadic args.
+		return nil, nil
+	}
 	return call.Args[last:], argType
 }
 
